@@ -662,6 +662,9 @@ pub fn enumerate_histories(
         }
     }
     let src = CountSrc::new(bytes);
+    let stats = src.stats.clone();
+    let block_offsets = crate::files::block_offsets(bytes);
+    let load_bound = 2 * (spec.cfg.index_levels as u64 + 2);
     let Ok(Ok(reader)) = guarded(|| Reader::new(src)) else { return (0, 0) };
     let fresh: Cur = reader.into_cursor().expect("into_cursor cannot fail");
     let mut histories = 0u64;
@@ -681,7 +684,9 @@ pub fn enumerate_histories(
         let (cur, pos, _) = stack.last().unwrap();
         let op = &ops[next_op];
         let mut c = cur.clone();
+        stats.reset();
         let got = apply(&mut c, op);
+        let loads = stats.block_loads(&block_offsets);
         operations += 1;
         let (want, mut npos) = model_step(&model, *pos, op);
         let unspecified = want.is_none() && !matches!(op, Op::Reset);
@@ -695,6 +700,12 @@ pub fn enumerate_histories(
             }
         }
         let mut bad: Option<String> = None;
+        if prop == "C16" {
+            // only the load bound is this property's business
+            if loads > load_bound {
+                bad = Some(format!("{} loaded {loads} blocks, bound 2*(levels+2) = {load_bound}", op.brief()));
+            }
+        } else {
         match &got {
             Err(e) if !unspecified => bad = Some(format!("{} -> {e}", op.brief())),
             Ok(Some(g)) => {
@@ -707,7 +718,8 @@ pub fn enumerate_histories(
             }
             _ => {}
         }
-        if bad.is_none() {
+        }
+        if bad.is_none() && prop != "C16" {
             if let Pos::At(i) = npos {
                 let cur_now = own(c.current());
                 let want_cur = Some((model.entries[i].0.clone(), model.entries[i].1.clone()));
